@@ -11,6 +11,7 @@ package main
 
 import (
 	"fmt"
+	"strings"
 
 	"google.golang.org/protobuf/proto"
 	"google.golang.org/protobuf/reflect/protodesc"
@@ -95,12 +96,34 @@ func checkProtoC37(c *C, p *descriptorpb.FileDescriptorProto, deps []string, reg
 	if !c.Check(err == nil && pn == nil, "NewFile rejects a valid generated schema: "+errClass(err, pn), in, "") {
 		return
 	}
+	// filedesc.Builder "assumes that the inputs are well-formed" = as protoc emits them: every field carries its type,
+	// names are fully qualified.  ToProto(NewFile(p)) is that canonical spelling of p (C34 checks it describes the same file).
+	if !strings.HasPrefix(note, "witness:") {
+		p = protodesc.ToFileDescriptorProto(ref)
+		in.FDP = hexOf(p)
+		ref, err, pn = newFile(p, r, false)
+		if !c.Check(err == nil && pn == nil, "NewFile rejects ToProto(NewFile(p)): "+errClass(err, pn), in, "") {
+			return
+		}
+	}
 	standaloneC37(c, p, r, snapshotFile(ref), in)
 	histShape(c, ref)
 }
 
 // standaloneC37 builds p with a fresh filedesc.Builder and compares with the reference snapshot.
 func standaloneC37(c *C, p *descriptorpb.FileDescriptorProto, r depResolver, sRef string, in replayIn) {
+	// Raw descriptors embedded in generated code carry no SourceCodeInfo and filedesc never decodes it
+	// (SourceLocations() of a filedesc-built file is always empty): compare without it.
+	if p.SourceCodeInfo != nil {
+		p = proto.Clone(p).(*descriptorpb.FileDescriptorProto)
+		p.SourceCodeInfo = nil
+		ref, err, pn := newFile(p, r, false)
+		if !c.Check(err == nil && pn == nil, "NewFile rejects p without source info: "+errClass(err, pn), in, "") {
+			return
+		}
+		sRef = snapshotFile(ref)
+		c.Hist("source-info-stripped")
+	}
 	raw, err := proto.MarshalOptions{Deterministic: true}.Marshal(p)
 	if err != nil {
 		c.Check(false, "marshal: "+err.Error(), in, "")
